@@ -181,7 +181,7 @@ void profile_twin(RunCtx& ctx)
     if (seeded.empty() && rng.chance(0.25)) {
         static const int kinds[] = {MF_DUP_LOC_NAME, MF_DROP_ARG, MF_EXTRA_ARG, MF_UNKNOWN_TEMPLATE, MF_DUP_PROCESS,
                                     MF_UNKNOWN_PROCESS, MF_DUP_DECL, MF_DUP_PARAM, MF_DUP_TEMPLATE_NAME, MF_EMPTY_TEMPLATE,
-                                    MF_FUNC_NO_RETURN, MF_EXTRA_INITIALISER, MF_URGENT_AND_COMMITTED, MF_DYNAMIC_PARAM_MISMATCH, MF_RANDOM_INIT};
+                                    MF_FUNC_NO_RETURN, MF_EXTRA_INITIALISER, MF_URGENT_AND_COMMITTED, MF_DYNAMIC_PARAM_MISMATCH, MF_RANDOM_INIT, MF_BAD_ITERATION_TYPE};
         int f = kinds[rng.below(sizeof kinds / sizeof kinds[0])];
         // two bodies for one dynamic template put namesake locations into one scope: the same ambiguity as below
         bool has_dyn = false;
